@@ -365,7 +365,7 @@ func C09(c *vh.Ctx) {
 	c.Bound("step_limits", limits)
 	c.Bound("history_max", maxLen)
 	c.Bound("messages", len(names))
-	c.Rule(fmt.Sprintf("one specification with %d ECMAScript producer actions (integers, fractions, arrays of numbers / objects, nested objects, nulls, in-place edits, computed numbers, a failing action, reset) and %d inspector branches (patterns over the produced values, incl. lastBindings/lastNode at the error node and an inequality); every message history up to the bound over all %d messages (incl. one consumed by a pattern-less default branch) x every step limit of the bound (small limits stop a walk at an action node, which is then also a save point) x every subset of message boundaries as save points (state -> JSON -> state); oracle: per message equal (node, canonical bindings, emitted) between the in-memory run and the persisted run, and at every save point the state equals its reloaded copy strictly (strings byte for byte, numbers by value, same structure) - a state that a JSON trip changes is not plain data. states = histories, transitions = messages processed; non-trivial = at least one save point.", len(c09Producers), len(c09Inspectors), len(names)))
+	c.Rule(fmt.Sprintf("one specification with %d ECMAScript producer actions (integers, fractions, arrays of numbers / objects, nested objects, nulls, in-place edits, computed numbers, a failing action, reset) and %d inspector branches (patterns over the produced values, incl. lastBindings/lastNode at the error node and an inequality); every message history up to the bound over all %d messages (incl. one consumed by a pattern-less default branch, arrays met by patterns that re-use script-bound variables, and one whose branch takes its target from a binding that a script set to a large whole number - there is a node of that name) x every step limit of the bound (small limits stop a walk at an action node, which is then also a save point) x every subset of message boundaries as save points (state -> JSON -> state); oracle: per message equal (node, canonical bindings, emitted) between the in-memory run and the persisted run, and at every save point the state equals its reloaded copy strictly (strings byte for byte, numbers by value, same structure) - a state that a JSON trip changes is not plain data. states = histories, transitions = messages processed; non-trivial = at least one save point.", len(c09Producers), len(c09Inspectors), len(names)))
 	var idx uint64
 	var rec func(h []string)
 	rec = func(h []string) {
